@@ -369,6 +369,25 @@ pub fn run_history(rng: &mut Rng, cfg: &HistCfg, dir: &Path, tag: &str) -> HistR
         let g1 = w.create_group(&sub, &[sub[0]], None, "group-1");
         group_list.push(g1);
     }
+    // warm-up: the creator commits `warmup_commits` times, everybody (SQLite members possibly
+    // restarted in between) applies each commit in order
+    for k in 0..sim.warmup_commits {
+        w.t += 2;
+        let t0 = w.t;
+        let kind = if k % 3 == 0 { CommitKind::Rename } else { CommitKind::SelfUpdate };
+        if let Some(ci) = w.act_commit(members[0], g0, &kind, t0, OwnMode::Immediate, k as u64, rng) {
+            step_monitors(&w, members[0], &mut mon, "warm-up-commit");
+            for &m in members.iter().skip(1) {
+                if sim.restart_pct > 0 && w.clients[m].backend != BackendKind::Memory && rng.chance(12) {
+                    w.clients[m].restart();
+                    mon.count("restarts");
+                    step_monitors(&w, m, &mut mon, "restart");
+                }
+                w.deliver(m, ci, OwnMode::Echo);
+                step_monitors(&w, m, &mut mon, "process_message:Commit");
+            }
+        }
+    }
     let mut schedule: Vec<Step> = vec![];
     let steps = rng.range(sim.steps.0, sim.steps.1);
     let mut rollbacks = 0usize;
